@@ -1,4 +1,5 @@
 import DeapModel.Core.Heap
+import DeapModel.Core.Init
 import Driver.Proto
 /-!
 Protocol handler for C16 (object heap: create / clone / pickle / toolbox).
@@ -28,6 +29,13 @@ Answers
   `[name:kind:attr=DESC+…:attr=val,…]`, then `NS:` the bound names with the descriptions of their classes.
 * `gp <nodes> <args> <mapping> <history> <tree>`: `renameArguments` history, then the pickle round
   trip of the tree's nodes; nodes `P/name/arity/args/ret/seq` or `T/name/value/ret/conv` (`-` = unset).
+
+* `init <ct> <cls> <shape> <hdr> <mode> <n> <tapes> <count>`: `count` consecutive `tools.initRepeat(creator.C, f, n)` (`mode` = `repeat`),
+  `tools.initCycle(creator.C, [f0, f1, …], n)` (`cycle`) or `tools.initIterate(creator.C, g)` (`iterate`: `g()` returns `n` elements) in the
+  empty heap (model `Core/Init.lean`).  `tapes` = `;`-separated, one per function: the values its successive calls return (a function is a
+  closure over its own list; a call on an exhausted list answers `fail`); `shape` = `seq` | `set` | `dict` (for `dict` a call returns a
+  key and a value: two values of the tape), `hdr` = `-` or the value that opens the items of an ndarray.  Answer: graph dump of the
+  created objects, then ` calls=<number of calls per function> left=<unused values per function>`.
 
 Operations: `clone <ct> <heap> <root> <k>`, `pickle <ct> <heap> <root> same|empty`,
 `create <ct> <cls> <items> <count>`, `createclone <ct> <cls> <items>` (one instance created in the
@@ -303,7 +311,63 @@ def showNode : Gp.Node → String
   | .prim a b c d e => "P/" ++ "/".intercalate [showOptInt a, showOptInt b, showOptInt c, showOptInt d, showOptInt e]
   | .term a b c d => "T/" ++ "/".intercalate [showOptInt a, showOptInt b, showOptInt c, showOptInt d]
 
+/-! ### `tools.initRepeat` / `initCycle` / `initIterate` (`init`) -/
+
+structure TapeSt where
+  tapes : List (List Val)
+  calls : List Nat
+  ok : Bool := true
+
+/-- the `j`-th function: a closure over its own list of values; every call hands out the next `w` of them -/
+def popFn (j w : Nat) : Init.Func TapeSt (List Val) := fun t =>
+  let tp := t.tapes.getD j []
+  if t.ok && w ≤ tp.length then
+    ({ t with tapes := t.tapes.set j (tp.drop w), calls := t.calls.set j (t.calls.getD j 0 + 1) }, tp.take w)
+  else ({ t with ok := false }, [])
+
+def parseShape : String → Option Init.Shape
+  | "seq" => some .seq | "set" => some .set | "dict" => some .dict | _ => none
+
+def initOne (ct : ClassTable) (c : ClsId) (shape : Init.Shape) (hdr : List Val) (mode : String) (n : Nat) (nf : Nat)
+    (t : TapeSt) (st : State) : Option (TapeSt × State × Oid) :=
+  let w := if shape = .dict then 2 else 1
+  let container : List (List Val) → List Val := fun res => hdr ++ Init.contentOf shape res.flatten
+  let r : Option (TapeSt × List Val) :=
+    if mode = "repeat" then some (Init.initRepeat container (popFn 0 w) n t)
+    else if mode = "cycle" then some (Init.initCycle container ((List.range nf).map (fun j => popFn j w)) n t)
+    else if mode = "iterate" then some (Init.initIterate (fun (l : List (List Val)) => container l) (fun t => let r := popFn 0 (n * w) t; (r.1, [r.2])) t)
+    else none
+  match r with
+  | none => none
+  | some (t1, items) =>
+    if !t1.ok then none else
+    match create ct st c items with
+    | none => none
+    | some (st1, x) => some (t1, st1, x)
+
+def initMany (ct : ClassTable) (c : ClsId) (shape : Init.Shape) (hdr : List Val) (mode : String) (n nf : Nat) :
+    Nat → TapeSt → State → List Val → Option (TapeSt × State × List Val)
+  | 0, t, st, roots => some (t, st, roots)
+  | k + 1, t, st, roots =>
+    match initOne ct c shape hdr mode n nf t st with
+    | none => none
+    | some (t1, st1, x) => initMany ct c shape hdr mode n nf k t1 st1 (roots ++ [Val.ref x])
+
 def handle : List String → String
+  | ["init", cts, cs, shapes, hdrs, mode, ns, tapes, counts] =>
+    match (do let ct ← parseCt cts; let c ← cs.toNat?; let sh ← parseShape shapes
+              let hdr ← (if hdrs = "-" then some [] else (parseVal hdrs).map (fun v => [v]))
+              let n ← ns.toNat?; let k ← counts.toNat?
+              let tp ← (tapes.splitOn ";").mapM (parseList parseVal)
+              if mode = "repeat" ∨ mode = "cycle" ∨ mode = "iterate" then pure (ct, c, sh, hdr, n, k, tp) else none) with
+    | some (ct, c, sh, hdr, n, k, tp) =>
+      match initMany ct c sh hdr mode n tp.length k { tapes := tp, calls := tp.map (fun _ => 0) }
+          { objs := fun _ => none, next := 0, memo := [] } [] with
+      | some (t, st, roots) =>
+        graphDump st.objs 0 (st.next + 2) roots ++ " calls=" ++ showList toString t.calls
+          ++ " left=" ++ showList (fun (l : List Val) => toString l.length) t.tapes
+      | none => "fail"
+    | none => "bad-op"
   | ["clone", cts, hs, root, ks] =>
     match (do let ct ← parseCt cts; let h ← parseHeap hs; let v ← parseVal root; let k ← ks.toNat?
               pure (ct, h, v, k)) with
